@@ -1,6 +1,7 @@
 SPECIFICATION MCSpec
 CONSTANTS Sender = {"s1", "s2"}
           MaxFaults = 3
+          MaxCfg = 0
           QueueMode = FALSE
           QCap = 2
           MaxConn = 4
